@@ -191,13 +191,13 @@ impl Check for C18 {
         "C18"
     }
     fn work(&self, tier: Tier) -> Vec<WorkItem> {
-        vec![WorkItem { mode: "directed", count: DIRECTED.len() as u64 }, WorkItem { mode: "mut", count: tier.pick(300_000, 20_000_000) }]
+        vec![WorkItem { mode: "directed", count: DIRECTED.len() as u64 }, WorkItem { mode: "mut", count: tier.pick(300_000, 20_000_000) }, WorkItem { mode: "consts", count: CONST_WIDTHS.len() as u64 * 3 }]
     }
     fn evaluations_counter(&self) -> &'static str {
         "texts"
     }
     fn rule(&self) -> String {
-        "G3(b): 1-4 random mutations (delete/duplicate/swap/move lines, drop/insert/duplicate tokens, sign flips, nudged and special numbers (0, 2^32+-1, 2^63, 2^64, 20 digits), other ids of the file, operator names, junk/unicode/control tokens, byte flips, tabs, CR, truncation, inserted array-sort and random lines) applied to freshly generated well-formed files (2/3) and to the corpus files <= 12 kB (1/3); widths are capped at 65536 so that memory exhaustion is not mistaken for a crash. Each mutant goes through parse_str under catch_unwind (aborts are attributed through the shard journal); accepted systems are deep-type-checked node by node, init/next types compared with their state, output/bad/constraint types compared with the sort declared on the referenced line (lenient re-read of the text), symbols checked against inputs+states. Panics on lines whose operator is in the documented unsupported set are excused. distinct_nontrivial = distinct mutated texts.".into()
+        "G3(b): 1-4 random mutations (delete/duplicate/swap/move lines, drop/insert/duplicate tokens, sign flips, nudged and special numbers (0, 2^32+-1, 2^63, 2^64, 20 digits), other ids of the file, operator names, junk/unicode/control tokens, byte flips, tabs, CR, truncation, inserted array-sort and random lines) applied to freshly generated well-formed files (2/3) and to the corpus files <= 12 kB (1/3); widths are capped at 65536 so that memory exhaustion is not mistaken for a crash. Each mutant goes through parse_str under catch_unwind (aborts are attributed through the shard journal); accepted systems are deep-type-checked node by node, init/next types compared with their state, output/bad/constraint types compared with the sort declared on the referenced line (lenient re-read of the text), symbols checked against inputs+states. Panics on lines whose operator is in the documented unsupported set are excused. Mode consts: a systematic sweep of constant lines - 38 widths on both sides of every word boundary up to 320 bits (and 512, 1000) x const/constd/consth x digit counts 1..6 and from three below to 24 and more above what the width can hold x digit patterns x optional sign / leading 0 / leading 1 - through the same oracle (no panic; an accepted constant has the declared width). distinct_nontrivial = distinct mutated texts.".into()
     }
     fn assumptions(&self) -> Vec<String> {
         vec!["`bad`/`constraint` operands need not be 1 bit wide (the statement only says declared widths)".into()]
@@ -217,6 +217,40 @@ impl Check for C18 {
             let base = gen_btor2(&mut rng).0;
             let (text, label) = mutate(&mut rng, &base);
             self.check_text(sh, &text, label);
+            return;
+        }
+        if case.mode == "consts" {
+            // systematic sweep of constant spellings: every width of CONST_WIDTHS x {const, constd, consth} x digit counts
+            // from 1 to a good way past what the width can hold x several digit patterns (with and without sign)
+            let w = CONST_WIDTHS[case.n as usize / 3];
+            let (op, bits_per_digit, digits): (&str, f64, &[&str]) = match case.n % 3 {
+                0 => ("const", 1.0, &["0", "1"]),
+                1 => ("constd", 3.3219, &["0", "1", "9", "5"]),
+                _ => ("consth", 4.0, &["0", "1", "f", "8", "F"]),
+            };
+            let exact = ((w as f64) / bits_per_digit).ceil() as usize;
+            let mut lens: Vec<usize> = (1..=6).collect();
+            lens.extend(exact.saturating_sub(3)..=exact + 24);
+            lens.extend([exact + 32, exact + 64, 2 * exact + 1]);
+            for len in lens {
+                if len == 0 {
+                    continue;
+                }
+                for d in digits {
+                    for (lead, sign) in [("", ""), ("1", ""), ("", "-"), ("0", "")] {
+                        let mut body = String::from(lead);
+                        while body.len() < len {
+                            body.push_str(d);
+                        }
+                        if op == "const" && (body.contains('9') || body.contains('f')) {
+                            continue;
+                        }
+                        let text = format!("1 sort bitvec {w}\n2 {op} 1 {sign}{body}\n3 output 2 o\n");
+                        sh.count("constant_spellings", 1);
+                        self.check_text(sh, &text, "constant-spelling");
+                    }
+                }
+            }
             return;
         }
         if case.mode == "directed" {
@@ -243,8 +277,12 @@ impl Check for C18 {
         m.floor("accepted mutants fully checked", m.c("accepted_systems_fully_checked"), tier.pick(30_000, 2_000_000));
         m.floor("rejected mutants", m.c("rejected"), tier.pick(100_000, 6_000_000));
         m.floor("mutation kinds used", m.hist_len("mutations") as u64, 20);
+        m.floor("constant spellings swept", m.c("constant_spellings"), 20_000);
     }
 }
+
+/// widths on both sides of every 64-bit word boundary up to 5 words, and a few others
+const CONST_WIDTHS: &[u32] = &[1, 2, 3, 4, 5, 7, 8, 31, 32, 33, 63, 64, 65, 66, 67, 68, 127, 128, 129, 130, 131, 132, 133, 136, 191, 192, 193, 196, 255, 256, 257, 260, 319, 320, 321, 324, 512, 1000];
 
 /// hand-written malformed inputs (regressions for repaired defects, witnesses of known findings)
 const DIRECTED: &[(&str, &str)] = &[
